@@ -203,6 +203,14 @@ type Pool struct {
 	epoch int64 // a pool (possibly a package-level variable) starts every execution empty
 }
 
+// DeterministicPools makes every Pool a plain LIFO free list even outside the controlled scheduler (sequential
+// explicit-state searches: the pool content is part of the implementation state and must be reproducible and
+// observable). Not goroutine-safe in that mode: each instance must be used by one goroutine.
+var DeterministicPools bool
+
+// Items returns the pooled objects, oldest first (deterministic modes only).
+func (p *Pool) Items() []any { return p.items }
+
 func (p *Pool) fresh() {
 	if e := vsched.Epoch(); p.epoch != e {
 		p.epoch, p.items = e, nil
@@ -210,11 +218,13 @@ func (p *Pool) fresh() {
 }
 
 func (p *Pool) Get() any {
-	if !vsched.Controlled() {
+	if !vsched.Controlled() && !DeterministicPools {
 		p.real.New = p.New
 		return p.real.Get()
 	}
-	p.fresh()
+	if vsched.Controlled() {
+		p.fresh()
+	}
 	if n := len(p.items); n > 0 {
 		x := p.items[n-1]
 		p.items = p.items[:n-1]
@@ -227,10 +237,12 @@ func (p *Pool) Get() any {
 }
 
 func (p *Pool) Put(x any) {
-	if !vsched.Controlled() {
+	if !vsched.Controlled() && !DeterministicPools {
 		p.real.Put(x)
 		return
 	}
-	p.fresh()
+	if vsched.Controlled() {
+		p.fresh()
+	}
 	p.items = append(p.items, x)
 }
